@@ -18,6 +18,13 @@ LEX_TOKENS_FNS = ['base_tokens', 'base_tokens_from', 'base_tokens_of_span', 'get
                   'skip_until', 'get_value_type_and_payload', 'spans_multiple_tokens']
 
 
+def r24_from_call(u, key, text):
+    if 'Tokens::from(tokens)' in text:
+        u.rules['R24-call'] += 1
+        return text.replace('Tokens::from(tokens)', 'Tokens::from_lexed(tokens)')
+    return text
+
+
 def r9_reservation(u, key, text):
     """R9 (call site): `let mut tokens = tokens.with_reservation(CLOSURE); F(&mut tokens, buffer)?`  ->
     `let mut r9_tokens = tokens.reserve(CLOSURE); let r9_result = F(&mut r9_tokens, buffer); tokens.release(r9_tokens); r9_result?`
@@ -71,7 +78,7 @@ def impl_to_free_fn(name):
 
 PBFRAME = ('final(final(%s).nodes)@ == final(old(%s).nodes)@ && final(final(%s).declarations)@ == final(old(%s).declarations)@'
            ' && final(%s).nodes@.len() == old(%s).nodes@.len(),')
-K = 6   # nodes per token proved sufficient (node budget); the capacity formula of ParseTree::empty must provide it
+K = 5   # nodes per token proved sufficient (node budget); the capacity formula of ParseTree::empty must provide it
 
 
 def expand_static_contracts(u):
@@ -108,12 +115,12 @@ NO_PROGRESS = {'parse_deref_steps_list'}
 STRICT = {'parse_addition', 'parse_multiplication', 'parse_singular_expression', 'parse_rest_of_bitwise_expression', 'parse_struct_members',
           'parse_rest_of_function_signature', 'parse_function_body', 'parse_primary_expression', 'parse_statement'}
 TABLE = {
-    'parse_declaration': dict(c=0, recent=False),
+    'parse_declaration': dict(c=0, recent=False, ens=['[C15.parse.parse_declaration.ok_only_at_declaration_start] r is Ok ==> is_decl_start(cur(*old(tokens))),']),
     'parse_import_declaration': dict(c=0),
     'parse_constant_declaration': dict(c=0),
     'parse_word_declaration': dict(c=0, req=['declaring_token is Word8 || declaring_token is Word16 || declaring_token is Word32 || declaring_token is Word64 || declaring_token is Word128,']),
     'parse_struct_declaration': dict(c=0),
-    'parse_struct_members': dict(c=1, recent=False, loops={0: dict(c=0, lists=['list'])}),
+    'parse_struct_members': dict(c=1 - K, recent=False, loops={0: dict(c=-K, lists=['list'])}),
     'parse_function_declaration': dict(c=0, recent=False),
     'parse_rest_of_function_signature': dict(c=2 - K, recent='pair1', loops={0: dict(c=-K, lists=['list'])}),
     'parse_member': dict(c=0),
@@ -272,7 +279,16 @@ def build(u):
     u.notes.append('parse_tree.rs imports the lexer Tokens unqualified; in the single-file unit the name is qualified (lexer::tokens::Tokens)')
     u.emit(PT, "impl<'buffer> ParseBuffer<'buffer>", rules=RB)
     # ---- cursor (real code)
-    u.emit(CT, "impl<'a> From<&'a lexer::tokens::Tokens> for Tokens<'a>")
+    # R24: trait impls cannot carry `requires`; the From impl is emitted as an inherent constructor (same body) and the one
+    # statically dispatched call `Tokens::from(tokens)` in `parse` is redirected to it, so the body is verified under the
+    # precondition and the precondition is checked at the call.
+    def from_to_inherent(t):
+        t2 = re.sub(r"(?m)^impl<'a> From<&'a lexer::tokens::Tokens> for Tokens<'a>", "impl<'a> Tokens<'a>", t, count=1).replace('fn from(', 'pub fn from_lexed(')
+        if t2 == t:
+            raise LostAnchor('R24: From impl of the cursor not in the expected form')
+        u.rules['R24'] += 1
+        return t2
+    u.emit(CT, "impl<'a> From<&'a lexer::tokens::Tokens> for Tokens<'a>", pre=from_to_inherent, widen=False)
     u.emit(CT, "impl<'a> Tokens<'a> #0")
     u.emit(CT, "impl<'a, 'b: 'a> Tokens<'b>", rules=[r9_defs])
     u.emit(CT, "impl<'a> Tokens<'a> #1")
@@ -288,7 +304,7 @@ def build(u):
     u.raw("impl<'b> Tokens<'b>\n{\n//@fn %s | %s:%d-%d\n%s\n//@endfn\n}" % (rkey, CT, drop_item.lines[0], drop_item.lines[1], rtext))
     u.rules['R9-release-from-Drop::drop'] += 1
     # ---- the parser
-    R = [rules.r13_assert_eq, r9_reservation, rules.flatten_paths(['parse_node']), rules.r22_filter_count]
+    R = [rules.r13_assert_eq, r9_reservation, rules.flatten_paths(['parse_node']), rules.r22_filter_count('|t: BaseToken| is_decl_start(t)'), r24_from_call]
     src = u.source(P)
     import os
     stage = os.environ.get('U_PARSE_STAGE', '')
